@@ -819,6 +819,9 @@ def run_check(mod, prop, tier, verif_seed, nworkers=None, budget_s=None, n_runs=
             out('HARNESS-ERROR NONDETERMINISM runs %r: %r %r %r' % (bad, [agg.digests[i] for i in bad],
                                                                    [again[i] for i in bad], [fresh.get(i) for i in bad]))
             exit_code = EXIT_HARNESS
+            # a code under test whose behaviour depends on the string-hash seed or on process identity makes the
+            # digests differ too; if it also violates the property, the (replayed) violation is the verdict
+            harness_failed = True
     unlisted, known = 0, []
     if agg.violating and (exit_code == EXIT_OK or harness_failed):
         # harness errors in some runs must not mask violations found (and replayed) in others
